@@ -90,7 +90,7 @@ pub fn prob_spec(r: &mut R, nmax: usize) -> ProbSpec {
         let nr = r.idx(5);
         Some(Mix { rot: (0..nr).map(|_| (r.idx(8), r.idx(8), r.f(-3.1, 3.1))).collect(), scale: (0..nmax).map(|_| r.f(0.5, 2.0)).collect() })
     };
-    ProbSpec { blocks, warp, mix }
+    ProbSpec { blocks, warp, mix, mag2: 0 }
 }
 
 pub fn meth(r: &mut R) -> Meth {
